@@ -983,6 +983,21 @@ func frameStart(p *Program, owner string) (*ssa.Function, *ssa.BasicBlock) {
 			}
 		}
 	}
+	// or a method of the owner starts the frame through a helper of the package
+	for _, fn := range moduleFuncs(p, pkgRoot) {
+		if recvTypeName(fn) != owner || fn.Parent() != nil {
+			continue
+		}
+		for _, ci := range callsIn(fn) {
+			if g := staticCallee(ci); g != nil && isHelper(g) && g.Pkg == fn.Pkg {
+				if callReaches(ci, func(x ssa.CallInstruction) bool {
+					return calleeIs(x, pkgStream, "Frame.InitW") || calleeIs(x, pkgStream, "Frame.ParseHeaders")
+				}) {
+					return fn, ci.Block()
+				}
+			}
+		}
+	}
 	return nil, nil
 }
 
